@@ -210,11 +210,24 @@ class Interp:
         defaults = fn.__defaults__ or ()
         for n, d in zip(names[len(names) - len(defaults):], defaults):
             if n not in locs:
-                locs[n] = d       # the real default object (shared, as in Python)
+                locs[n] = self.lift(d)       # the real default object (shared, as in Python)
         for n in names:
             if n not in locs:
                 raise Raised(TypeError, ('missing argument %s' % n,))
         return locs
+
+    def lift(self, v):
+        """A real pamqp object that exists outside this call (a default argument, a module-level
+        instance): seen by the executor as a heap object with provenance 'module' (identity preserved)."""
+        if isinstance(v, type) or not type(v).__module__.startswith('pamqp') or callable(v):
+            return v
+        cache = self.st.__dict__.setdefault('lifted', {})
+        if id(v) not in cache:
+            names = list(getattr(type(v), '__slots__', ())) or list(getattr(v, '__dict__', {}))
+            attrs = {n: self.lift(getattr(v, n)) for n in names if hasattr(v, n)}
+            cache[id(v)] = SObj(type(v), attrs, provenance='module', label='shared:%s' % type(v).__name__)
+            self.st.keep.append(v)
+        return cache[id(v)]
 
     def run_body(self, fn, args, kwargs=None):
         node = function_ast(fn)
@@ -476,7 +489,7 @@ class Interp:
         if (mod, name) in self.st.global_over:
             return self.st.global_over[(mod, name)]
         if name in fr.globals:
-            return fr.globals[name]
+            return self.lift(fr.globals[name])
         if hasattr(builtins, name):
             return getattr(builtins, name)
         raise Raised(NameError, (name,))
